@@ -1,7 +1,103 @@
-//! ChandeMomentumOscillator — reference model (TODO).
+//! ChandeMomentumOscillator. Doc: 1 value — `oscillator`, range [-1; 1]; linked formula (investopedia):
+//!   CMO = (sH - sL) / (sH + sL), sH = sum of the up-moves, sL = sum of the down-moves (as positive
+//!   numbers) over the last `period` one-step changes of the source (the doc's range [-1; 1] fixes the
+//!   scale: no factor 100).
+//! 1 signal — value goes above `zone`: full sell; value goes below `-zone`: full buy; otherwise none.
 use super::*;
+use crate::win_allow;
+use crate::Ser;
+use std::collections::VecDeque;
 
-/// returns None until the reference is written
-pub fn make(_cfg: &Cfg, _c0: &RC) -> Option<Box<dyn IndRef>> {
-	None
+#[derive(Clone)]
+struct Cmo {
+	n: usize,
+	zone: f64,
+	src: String,
+	input: Ser,
+	cands: VecDeque<RC>,
+	under: CrossD,
+	above: CrossD,
+}
+
+/// do two candles have exactly the same source quantity (an exact predicate of the inputs)?
+fn same_src(a: &RC, b: &RC, kind: &str) -> bool {
+	match kind {
+		"close" => a.c == b.c,
+		"open" => a.o == b.o,
+		"high" => a.h == b.h,
+		"low" => a.l == b.l,
+		"hl2" => a.h == b.h && a.l == b.l,
+		"tp" => a.h == b.h && a.l == b.l && a.c == b.c,
+		"volume" => a.v == b.v,
+		"volumed_price" => a.h == b.h && a.l == b.l && a.c == b.c && a.v == b.v,
+		o => panic!("unknown source {o}"),
+	}
+}
+
+pub fn make(cfg: &Cfg, c0: &RC) -> Option<Box<dyn IndRef>> {
+	let n = cfg.int("period");
+	let zone = cfg.float("zone");
+	let src = cfg.src("source");
+	let s0 = source(c0, &src);
+	let mut cands = VecDeque::new();
+	for _ in 0..=n {
+		cands.push_back(*c0);
+	}
+	Some(Box::new(Cmo {
+		n,
+		zone,
+		input: Ser::with_cap(s0, n + 2),
+		cands,
+		// the oscillator of the constant prehistory is 0: previous differences 0 - (-zone) and 0 - zone
+		under: CrossD::new(zone),
+		above: CrossD::new(-zone),
+		src,
+	}))
+}
+
+impl IndRef for Cmo {
+	fn values(&mut self, c: &RC) -> Vec<Q> {
+		let n = self.n;
+		self.input.push(source(c, &self.src));
+		self.cands.push_back(*c);
+		while self.cands.len() > n + 1 {
+			self.cands.pop_front();
+		}
+		// † follows the implementation: the formula is 0/0 on a window without any change; yata's stated
+		// branch gives 0 there. "Every one of the last n changes is exactly zero" is an exact predicate.
+		let flat = (1..=n).all(|i| same_src(&self.cands[i - 1], &self.cands[i], &self.src));
+		if flat {
+			return vec![Q::exact(0.0)];
+		}
+		let w = self.input.last_n(n + 1);
+		let rin: f64 = w.iter().map(|q| q.r).sum();
+		if !rin.is_finite() {
+			return vec![Q::undefined()];
+		}
+		let (mut up, mut dn) = (0.0f64, 0.0f64);
+		for i in 1..w.len() {
+			let d = w[i].v - w[i - 1].v;
+			if d > 0.0 {
+				up += d;
+			} else if d < 0.0 {
+				dn -= d;
+			}
+		}
+		if up == 0.0 && dn == 0.0 {
+			// different candles whose (rounded) source quantities coincide: the predicate cannot be decided here
+			return vec![Q::undefined()];
+		}
+		// sums maintained over the whole history of changes (magnitude of a change <= 2 * magnitude of the values)
+		let allow = win_allow(self.input.t(), n, 1.0, 2.0 * self.input.mag) + 2.0 * rin;
+		let p = Q::new(up, allow);
+		let m = Q::new(dn, allow);
+		vec![(p - m) / (p + m)]
+	}
+	fn signals(&mut self, _c: &RC, own: &[f64]) -> Vec<Sig> {
+		let v = own[0];
+		let buy = self.under.under(v, -self.zone);
+		let sell = self.above.above(v, self.zone);
+		vec![sig_sign(buy as i32 - sell as i32)]
+	}
+	indref!(Cmo);
 }
